@@ -19,7 +19,7 @@ theorem ConstInv.closed (cfg : Cfg) (tbl : List Nat) : Closed0 (ConstInv cfg tbl
   enterFiles := fun _ _ _ _ h _ _ => h
   emitRead := fun _ _ _ _ h _ => h
   emitIdle := fun _ _ _ _ h _ => h
-  publish := fun _ _ _ _ h => h
+  publish := fun _ _ _ _ h _ => h
   fdtAdvance := fun s _ now _ h _ _ => by
     rcases fdtAdvance_cases s now with ⟨e, _⟩ | ⟨k, f, _, _, _, e⟩
     · rw [e]; exact ⟨by rw [fdtPop_fdtPkts]; exact h.1, by rw [fdtPop_cfg]; exact h.2⟩
@@ -49,7 +49,8 @@ theorem ConstInv.closedOps (cfg : Cfg) (tbl : List Nat) : ClosedOps0 (ConstInv c
     unfold triggerTransferAt; split
     · exact h
     · split <;> exact h
-  emitPublish := fun _ _ _ _ h => h
+  publishOp := fun s _ now _ h =>
+    publishTry_elim (P := fun x => x.fdtPkts = tbl ∧ x.cfg = cfg) (emit s (.opPublish now)) now h h
   complete := fun _ _ _ h => h
 
 theorem const_run (cfg : Cfg) (tbl : List Nat) (ops : List Op) :
